@@ -86,7 +86,114 @@ TRANSPARENT = (
 )
 
 
+def _split_top(s_):
+    out, depth, cur, quote = [], 0, "", None
+    for ch in s_:
+        if quote:
+            cur += ch
+            if ch == quote:
+                quote = None
+            continue
+        if ch in "\"'":
+            quote = ch
+            cur += ch
+        elif ch in "([{":
+            depth += 1
+            cur += ch
+        elif ch in ")]}":
+            depth -= 1
+            cur += ch
+        elif ch == "," and depth == 0:
+            out.append(cur.strip())
+            cur = ""
+        else:
+            cur += ch
+    if cur.strip():
+        out.append(cur.strip())
+    return out
+
+
+def _parse_pp_value(part):
+    import re as _re
+    part = part.strip()
+    if part.startswith("const "):
+        part = part[6:].strip()
+    m = _re.match(r"^(-?\d+)_[iu](?:8|16|32|64|128|size)$", part)
+    if m:
+        return vint(int(m.group(1)))
+    if part in ("true", "false"):
+        return vbool(part == "true")
+    if len(part) >= 2 and part[0] == '"' and part[-1] == '"':
+        return vstr(part[1:-1])
+    if len(part) == 3 and part[0] == "'" and part[-1] == "'":
+        return Val("char", part[1])
+    if part.startswith("(") and part.endswith(")"):
+        items = [_parse_pp_value(x) for x in _split_top(part[1:-1])]
+        return None if any(x is None for x in items) else Val("tuple", items)
+    if part.startswith("[") and part.endswith("]"):
+        items = [_parse_pp_value(x) for x in _split_top(part[1:-1])]
+        return None if any(x is None for x in items) else Val("list", items)
+    if part.startswith("&"):
+        return _parse_pp_value(part[1:])
+    if _re.match(r"^[A-Za-z_][\w:<>]*$", part) and "::" in part:
+        adt, name = part.rsplit("::", 1)
+        return variant(adt, name)
+    return None
+
+
+def _parse_pp_list(pp):
+    """`[A::B::X, A::B::Y]` / `[60_u64, 600_u64]` / `[('s', 1_u64), ..]` -> list of Vals, or None"""
+    v = _parse_pp_value(pp or "")
+    return list(v.v) if v is not None and v.k == "list" else None
+
+
+def _promoted_to_val(body, idx, depth=0):
+    """value of a promoted constant: its tiny body is a straight line of assignments (array literal, reference to a const item)"""
+    if idx >= len(body.promoted) or depth > 3:
+        return None
+    env = {}
+    it = Interp(body)
+    for blk in body.promoted[idx]["blocks"]:
+        for st in blk["stmts"]:
+            if st["s"] == "assign" and not st["lhs"]["p"]:
+                rv = st["rv"]
+                if rv["k"] == "use" and op_const(rv["op"]) is not None:
+                    cc = op_const(rv["op"])
+                    v = _item_val(body, cc)
+                    env[st["lhs"]["l"]] = v if v is not None else const_val(body, rv["op"])
+                elif rv["k"] == "agg" and rv.get("agg") == "array":
+                    env[st["lhs"]["l"]] = Val("list", [it.operand(env, o) for o in rv["ops"]])
+                else:
+                    env[st["lhs"]["l"]] = it.rvalue(env, rv)
+    return env.get(0)
+
+
+def _item_val(body, c):
+    """a reference to a `const ITEM: [T; N]` item whose value is printed in the facts"""
+    prog = getattr(body, "prog", None)
+    item = c.get("item")
+    src = None
+    if item and prog is not None and item in prog.consts:
+        src = prog.consts[item].get("pp")
+    elif c.get("ty", "").lstrip("&").startswith("[") and c.get("pp"):
+        src = c.get("pp")
+    if src:
+        vals = _parse_pp_list(src)
+        if vals is not None:
+            return Val("list", vals)
+    return None
+
+
 def const_val(body, op):
+    c0 = op_const(op)
+    if c0 is not None and "promoted" in c0 and c0.get("ty", "").lstrip("&").startswith("["):
+        v = _promoted_to_val(body, c0["promoted"])
+        if v is not None and v.deref().k == "list":
+            return v
+    if c0 is not None:
+        v = _item_val(body, c0)
+        if v is not None:
+            return v
     c = body.const_of(op)
     if c is None:
         return UNKNOWN
@@ -346,7 +453,7 @@ class Interp:
                 return vbool(not a.v)
             if fn in ("alloc::vec::Vec::as_slice", "alloc::slice::<impl [T]>::to_vec"):
                 return a
-            if fn == "core::slice::<impl [T]>::contains" and len(d) > 1 and d[1].k in ("str", "int", "variant", "bool"):
+            if fn == "core::slice::<impl [T]>::contains" and len(d) > 1 and d[1].k in ("str", "int", "variant", "bool", "char"):
                 known = [x.deref() for x in a.v]
                 if all(x.k == d[1].k for x in known):
                     return vbool(any(x.v == d[1].v for x in known))
@@ -736,7 +843,7 @@ def struct_val(prog, adt_key, fields=None, default=None):
     return Val("adt", vals, (adt_key, prog.adt(adt_key)["variants"][0]["name"]))
 
 
-def success_model(body, overrides=None):
+def success_model(body, overrides=None, skip_unknown_loops=False):
     """call model for `success-path traces` of (async) functions: awaited futures complete (Poll::Ready), fallible calls
     succeed (Ok(unknown)); `overrides(cs, args)` is consulted first. Used to extract the ORDER of effects on the success
     path under chosen values of the few flags that select it (e.g. file exists / file type)."""
@@ -752,6 +859,9 @@ def success_model(body, overrides=None):
             return args[0]
         if cs.fn in ("core::future::into_future::IntoFuture::into_future", "core::pin::Pin::new_unchecked") and args:
             return args[0]
+        if skip_unknown_loops and cs.fn == "core::iter::traits::iterator::Iterator::next" and args and args[0].deref().k != "iter":
+            # a loop over a collection whose content is not modelled (e.g. copying an environment map): stepped over
+            return NONE_V
         if cs.dest is not None and _dest_is(body, cs, "core::result::Result<"):
             return Val("adt", [Val("unknown", "ret:%s" % cs.name)], ("core::result::Result", "Ok"))
         return None
